@@ -15,7 +15,7 @@
   still missing (multi-root documents, the slim classes) is stated under "What is partial".
 -/
 import AHP.Lemmas.Format
-import AHP.Lemmas.FormatLexDoc
+import AHP.Lemmas.FormatLexMulti
 namespace AHP.C11
 open AHP AHP.Fmt
 -- the lexer's side (namespace `AHP`) has declarations with the same short names as the formatter model
@@ -119,23 +119,37 @@ theorem end_tag_text (n ind : Str) (kids : List Node) :
 /-! #### string level: the output text lexes back and re-parses to the same document -/
 
 /-- **C11 (string level, a).**  Pretty or mini formatter (normal element class, indent unit of spaces/tabs), any token
-    sequence whose plain-parser tree is a single-root document in the strict sub-language (`FNode.Strict`: well-formed
-    names and attribute items, text blocks that are data runs / references / comments, raw-text content free of its
-    closing expression, attribute stores that are re-read unchanged): the formatter's output TEXT is in the domain of
-    the strict lexer and lexes to `outToks` — the token rendering of the decorated tree, each `_indent` glued to the
-    data run before it (or a data run of its own). -/
+    sequence whose plain-parser tree is a document in the strict sub-language (`FNode.Strict`: well-formed names and
+    attribute items, text blocks that are data runs / references / comments, raw-text content free of its closing
+    expression, attribute stores that are re-read unchanged), single- or multi-root (`WrapperOK`): the formatter's
+    output TEXT is in the domain of the strict lexer and lexes to `docToks` — the token rendering of the decorated
+    tree, each `_indent` glued to the data run before it (or a data run of its own). -/
 theorem formatter_output_lexes (cfg : Cfg) (hk : cfg.kind = .normal) (hi : IndentWS cfg) (toks : List Tok)
     (h : NoWrapperStart toks) (ps : St) (hp : Plain.feed toks = .ok ps)
     (n : Str) (st : AStore) (sc : Bool) (kids : List FNode)
-    (hroot : ps.root = some (FNode.elem n st sc kids).toNode) (hw : n ≠ wrapper)
+    (hroot : ps.root = some (FNode.elem n st sc kids).toNode) (hw : WrapperOK n st sc kids)
     (hs : (FNode.elem n st sc kids).Strict) (hdt : DtOK ps.doctype) :
-    ∃ out, format cfg toks = .ok out ∧ lexStrict out = some (outToks cfg ps.doctype (.elem n st sc kids)) := by
+    ∃ out, format cfg toks = .ok out ∧ lexStrict out = some (docToks cfg ps.doctype n st sc kids) := by
   have ht := format_tree cfg toks h
   rw [hp] at ht
   obtain ⟨fs, hf, hr, hd⟩ := ht
-  refine ⟨renderToks (outToks cfg ps.doctype (.elem n st sc kids)), ?_, doc_lex cfg hi _ _ hs hdt⟩
-  rw [format_is_serialised_tree cfg toks fs hf, hr, hd, hroot]
-  exact doc_render cfg hk ps.doctype n st sc kids hw hs
+  refine ⟨renderToks (docToks cfg ps.doctype n st sc kids), ?_, ?_⟩
+  · rw [format_is_serialised_tree cfg toks fs hf, hr, hd, hroot]
+    unfold docToks
+    by_cases hn : n = wrapper
+    · obtain ⟨_, hsc, _⟩ := hw hn
+      subst hn; subst hsc
+      simp only [if_true]
+      exact doc_render_multi cfg hk ps.doctype st kids hs
+    · simp only [hn, if_false]
+      exact doc_render cfg hk ps.doctype n st sc kids hn hs
+  · unfold docToks
+    by_cases hn : n = wrapper
+    · subst hn
+      simp only [if_true]
+      exact doc_lex_multi cfg hi _ kids (strictL_of_wrapper st sc kids hs) hdt
+    · simp only [hn, if_false]
+      exact doc_lex cfg hi _ _ hs hdt
 
 /-- trees with the same skeleton have the same canonical skeleton (`cskel` = `skel`, then empty data blocks dropped
     and adjacent data blocks joined) — so `formatter_preserves_document` also reads with `cskel` -/
@@ -150,16 +164,26 @@ theorem cskel_of_skel (a b : Node) (h : skel a = skel b) : cskel a = cskel b := 
 theorem formatter_output_reparses (cfg : Cfg) (hk : cfg.kind = .normal) (hi : IndentWS cfg) (toks : List Tok)
     (h : NoWrapperStart toks) (ps : St) (hp : Plain.feed toks = .ok ps)
     (n : Str) (st : AStore) (sc : Bool) (kids : List FNode)
-    (hroot : ps.root = some (FNode.elem n st sc kids).toNode) (hw : n ≠ wrapper)
+    (hroot : ps.root = some (FNode.elem n st sc kids).toNode) (hw : WrapperOK n st sc kids)
     (hs : (FNode.elem n st sc kids).Strict) (hdt : DtOK ps.doctype) :
     ∃ out toks' ps', format cfg toks = .ok out ∧ lexStrict out = some toks' ∧
       Plain.feed (toks'.map Tok.ofToken) = .ok ps' ∧ ps'.doctype = ps.doctype ∧
       ps'.root.map cskel = ps.root.map cskel := by
   obtain ⟨out, hout, hlex⟩ := formatter_output_lexes cfg hk hi toks h ps hp n st sc kids hroot hw hs hdt
-  refine ⟨out, _, _, hout, hlex, doc_reparse cfg hi ps.doctype n st sc kids hs hdt, rfl, ?_⟩
   rw [hroot]
-  simp only [St.root, rootOfStack, Option.map_some]
-  rw [cskel_outRoot cfg hi n st sc kids hs]
+  unfold docToks at hlex
+  by_cases hn : n = wrapper
+  · obtain ⟨hst, hsc, hmulti⟩ := hw hn
+    subst hn; subst hsc; subst hst
+    simp only [if_true] at hlex
+    have hk' := strictL_of_wrapper {} false kids hs
+    refine ⟨out, _, _, hout, hlex, doc_reparse_multi cfg hi ps.doctype kids hk' hdt hmulti, rfl, ?_⟩
+    simp only [St.root, rootOfStack, Option.map_some]
+    rw [cskel_outM cfg hi ps.doctype {} kids hk']
+  · simp only [hn, if_false] at hlex
+    refine ⟨out, _, _, hout, hlex, doc_reparse cfg hi ps.doctype n st sc kids hs hdt, rfl, ?_⟩
+    simp only [St.root, rootOfStack, Option.map_some]
+    rw [cskel_outRoot cfg hi n st sc kids hs]
 
 /-! #### non-vacuity -/
 
@@ -199,6 +223,24 @@ example : ∃ out toks' ps', format (mkCfg .pretty (.str (str "  ")) false) samp
   formatter_output_reparses (mkCfg .pretty (.str (str "  ")) false) rfl (by decide) sampleToks (by decide)
     ⟨[], some sampleTree.toNode, none, 0, 0⟩ (by rfl) _ _ _ _ rfl (by decide)
     (by simp only [FNode.Strict, StrictL]; decide) trivial
+
+/-- a multi-root document: text, a reference and two elements at top level, after a doctype -/
+def multiToks : List Tok :=
+  [.decl (str "doctype html"), .data (str "a "), .start (str "b") [], .data (str "x"), .end_ (str "b"),
+   .entity (str "amp"), .startend (str "br") [], .data (str "\n")]
+
+def multiKids : List FNode :=
+  [.tok (.data (str "a ")), .elem (str "b") {} false [.tok (.data (str "x"))], .tok (.entity (str "amp")),
+   .elem (str "br") {} true [], .tok (.data (str "\n"))]
+
+/-- … by a multi-root document (the wrapper case; pretty class with a tab) … -/
+example : ∃ out toks' ps', format (mkCfg .pretty (.str (str "\t")) false) multiToks = .ok out ∧
+    lexStrict out = some toks' ∧ Plain.feed (toks'.map Tok.ofToken) = .ok ps' ∧
+    ps'.doctype = some (str "doctype html") ∧
+    ps'.root.map cskel = some (cskel (FNode.elem wrapper {} false multiKids).toNode) :=
+  formatter_output_reparses (mkCfg .pretty (.str (str "\t")) false) rfl (by decide) multiToks (by decide)
+    ⟨[], some (FNode.elem wrapper {} false multiKids).toNode, some (str "doctype html"), 0, 0⟩ (by rfl) _ _ _ _ rfl
+    (by decide) (by simp only [multiKids, FNode.Strict, StrictL]; decide) (by decide)
 
 /-- … and by a document with a doctype and a `<script>` whose content has `<`, `&&` and `</div>` (mini class) -/
 example : ∃ out toks' ps', format (mkCfg .mini .dflt false) rawToks = .ok out ∧
